@@ -564,3 +564,138 @@ def clause_e(ctx: Context, idx) -> None:
                               f"{mo.fmt(want[side])}: for complex matrices the factors differ and everything built on them (Euler decomposition, "
                               f"active linear gates on the Fock simulators) gives another state than with the NumPy connector", mo.fmt(squared))
     ctx.require_floor("C09e arms of hand-written polar decompositions", n, 2)
+    _clause_e_delegating(ctx, idx, base)
+
+
+def _clause_e_delegating(ctx: Context, idx, base) -> None:
+    """polar methods that delegate to a library polar (jax.scipy / scipy): the library call on X with side s gives X = Uq Ph
+    (right) or X = Ph Uq (left), Ph Hermitian; the returned pair (u, p) must be single factors with M = u p (right) /
+    M = p u (left) as words - by uniqueness of the polar decomposition that is scipy's answer."""
+    from .. import moments as mo
+    n = 0
+    for c in idx.subclasses(base, strict=False):
+        f = c.methods.get("polar")
+        if f is None or any(isinstance(x, ast.Call) and (dotted(x.func) or "").split(".")[-1] == "sqrtm" for x in ast.walk(f.node)):
+            continue
+
+        def is_delegate(e: ast.AST) -> bool:
+            return isinstance(e, ast.Call) and (dotted(e.func) or "").split(".")[-1] == "polar" and not (dotted(e.func) or "").startswith("self.polar") \
+                and bool(e.args)
+
+        if not any(is_delegate(x) for x in ast.walk(f.node)):
+            continue
+        params = f.params()
+        if len(params) < 3:
+            continue
+        mname, sname = params[1], params[2]
+        M, Uq, Ph = mo.sym("M"), mo.sym("Uq"), mo.sym("Ph")
+        for side in ("right", "left"):
+            env: Dict[str, object] = {mname: M}
+            key = f"{f.qualname}|side={side}"
+            result = None
+            undecided = None
+
+            def delegate(e: ast.Call):
+                X = mo.WordEval(env).ev(e.args[0])
+                s_arg = e.args[1] if len(e.args) > 1 else next((k.value for k in e.keywords if k.arg == "side"), None)
+                if isinstance(s_arg, ast.IfExp):
+                    t = s_arg.test
+                    if isinstance(t, ast.Compare) and len(t.ops) == 1 and isinstance(t.ops[0], (ast.Eq, ast.NotEq)) and norm(t.left) == sname \
+                            and isinstance(t.comparators[0], ast.Constant):
+                        truth = (t.comparators[0].value == side) == isinstance(t.ops[0], ast.Eq)
+                        s_arg = s_arg.body if truth else s_arg.orelse
+                if s_arg is None:
+                    s_ = "right"
+                elif isinstance(s_arg, ast.Constant):
+                    s_ = s_arg.value
+                elif isinstance(s_arg, ast.Name) and s_arg.id == sname:
+                    s_ = side
+                else:
+                    raise mo.Untranslatable(f"side argument `{norm(s_arg)}`")
+                if len(X) != 1:
+                    raise mo.Untranslatable("delegated polar of a sum")
+                (word, coef), = X.items()
+                if len(word) != 1 or word[0][0] != "M" or coef != 1:
+                    raise mo.Untranslatable(f"delegated polar of `{norm(e.args[0])}`")
+                _, cj, tr = word[0]
+                rhs = mo.mul(Uq, Ph) if s_ == "right" else mo.mul(Ph, Uq)
+                # X = t(M) = rhs  =>  M = t(rhs), t an involution
+                m_word = rhs
+                if cj:
+                    m_word = mo.conj(m_word)
+                if tr:
+                    m_word = mo.transpose(m_word)
+                return m_word
+
+            m_words: List[object] = []
+
+            def run_block(stmts) -> bool:
+                nonlocal result, undecided
+                for s_ in stmts:
+                    if isinstance(s_, ast.Expr) and isinstance(s_.value, ast.Constant):
+                        continue
+                    if isinstance(s_, ast.If):
+                        t = s_.test
+                        if isinstance(t, ast.Compare) and len(t.ops) == 1 and isinstance(t.ops[0], (ast.Eq, ast.NotEq)) and norm(t.left) == sname \
+                                and isinstance(t.comparators[0], ast.Constant):
+                            truth = (t.comparators[0].value == side) == isinstance(t.ops[0], ast.Eq)
+                            if run_block(s_.body if truth else s_.orelse):
+                                return True
+                            continue
+                        undecided = f"branches on `{norm(t)[:60]}`"
+                        return True
+                    if isinstance(s_, ast.Assign) and len(s_.targets) == 1:
+                        tg, v = s_.targets[0], s_.value
+                        try:
+                            if is_delegate(v) and isinstance(tg, ast.Tuple) and len(tg.elts) == 2 and all(isinstance(x, ast.Name) for x in tg.elts):
+                                m_words.append(delegate(v))
+                                env[tg.elts[0].id], env[tg.elts[1].id] = Uq, Ph
+                            elif isinstance(tg, ast.Name):
+                                env[tg.id] = mo.WordEval(env).ev(v)
+                        except mo.Untranslatable as e:
+                            if isinstance(tg, ast.Name):
+                                env.pop(tg.id, None)
+                            else:
+                                undecided = str(e)
+                                return True
+                        continue
+                    if isinstance(s_, ast.Return):
+                        v = s_.value
+                        try:
+                            if is_delegate(v):
+                                m_words.append(delegate(v))
+                                result = (Uq, Ph)
+                            elif isinstance(v, ast.Tuple) and len(v.elts) == 2:
+                                result = (mo.WordEval(env).ev(v.elts[0]), mo.WordEval(env).ev(v.elts[1]))
+                            else:
+                                undecided = f"returns `{norm(v)[:60]}`"
+                        except mo.Untranslatable as e:
+                            undecided = str(e)
+                        return True
+                    if isinstance(s_, ast.Raise):
+                        undecided = "raises"
+                        return True
+                return False
+
+            run_block(f.node.body)
+            if undecided == "raises":
+                continue
+            if undecided or result is None or len(m_words) != 1:
+                ctx.error(f"C09e: cannot read the {side} path of {f.qualname} ({undecided or 'no single delegated polar call'}); undecided")
+                continue
+            u, p_ = result
+            got = mo.mul(u, p_) if side == "right" else mo.mul(p_, u)
+
+            def single(e, symname):
+                return len(e) == 1 and all(len(w) == 1 and w[0][0] == symname and k == 1 for w, k in e.items())
+
+            ok = single(u, "Uq") and single(p_, "Ph") and mo.add(got, m_words[0], -1) == {}
+            n += 1
+            ctx.obligation("C09e", key, ok, f"{ctx.relpath(f.file)}:{f.line}", returned_product=mo.fmt(got), matrix=mo.fmt(m_words[0]))
+            if not ok:
+                ctx.violation("C09e", key, f.file, f.line,
+                              f"{c.name}.polar(side='{side}') returns (u, p) = ({mo.fmt(u)}, {mo.fmt(p_)}) from a library polar decomposition with "
+                              f"matrix = {mo.fmt(m_words[0])}; the product {'u p' if side == 'right' else 'p u'} = {mo.fmt(got)} is not the matrix, so "
+                              "the factors differ from scipy.linalg.polar (the NumPy connector) for complex matrices",
+                              mo.fmt(got))
+    ctx.require_floor("C09e sides of delegating polar methods", n, 2)
